@@ -1,5 +1,487 @@
-//! stream `jo` (stub; replaced by its builder)
-pub fn generate(_seed: u64, _cases: usize, _out: &mut Vec<String>) {}
-pub fn run(_toks: &[&str]) -> String {
-    "bad-op".to_string()
+//! Stream `jo` — the join-order search of the optimizer (C09): `optimizer/join_order.rs` (JoinGraph,
+//! BitSet, DPccp::optimize / enumerate_ccp / is_connected / get_conditions / build_join_plan, the
+//! 16-relation cap) and the way `optimizer/mod.rs` extracts a join graph from a plan and puts the
+//! chosen tree back (`reorder_joins`, `extract_join_tree`, `collect_join_tree`, `optimize_join_order`).
+//!
+//! Every op line is self-contained:
+//!
+//!   jo order <n> <edges> <cards>          DPccp called directly on a JoinGraphBuilder input: relation i is
+//!                                         `NodeScan r<i>:R<i>` with TableStats row count cards[i]; edge k =
+//!                                         `f:t` is the condition `r<f>.c<k> = r<t>.c<k>` (left expression on
+//!                                         f). Answer: the chosen tree, `none` when DPccp declines.
+//!   jo valid <n> <edges> <cards>          same call; answer: the validity verdict of the chosen tree
+//!                                         (`ok` | `kept` | problems joined by `+`)
+//!   jo opt <n> <edges> <cards>            the left-deep plan ((r0 ⋈ r1) ⋈ r2) … with every condition at the
+//!                                         first join that has both its relations, through
+//!                                         `Optimizer::optimize` (join reordering only); answer: the tree after
+//!   jo check <n> <edges> <cards> <tree…>  any statistics, any size: the real tree is in the line (computed at
+//!                                         generation time); answer: `changed:…` if DPccp answers differently
+//!                                         now, else the verdict of that tree
+//!   jo rows <n> <edges> <cards> <members> the left-deep plan under `Return r0..r<n-1>` executed by the real
+//!                                         planner + executor without and with join reordering over a store
+//!                                         in which node j carries label R<i> iff j ∈ members[i]; conditions
+//!                                         are `r<f> = r<t>` (the only kind the planner's hash join keys on);
+//!                                         answer `<rows without>/<rows with>/<eq|ne>` (row multisets)
+//!
+//! tree     = `<i>` | `( <tree> <tree> <conds> )`       conds = `-` | `k:l>r{,k:l>r}` (condition k, relation
+//!            of its left expression, relation of its right expression)
+//! edges    = `-` | `f:t{,f:t}`      cards = `c{,c}`      members = `ids{,ids}`, ids = `-` | `j{.j}`
+#![allow(unused)]
+use crate::util::*;
+use grafeo_engine::query::optimizer::{CardinalityEstimator, CostModel, DPccp, JoinGraphBuilder, TableStats};
+use grafeo_engine::query::plan::*;
+use grafeo_engine::query::{Executor, Optimizer, Planner};
+use grafeo_engine::transaction::TransactionManager;
+use std::sync::Arc;
+
+// ------------------------------------------------------------------ arguments
+
+struct Args {
+    n: usize,
+    edges: Vec<(usize, usize)>,
+    cards: Vec<u64>,
+}
+
+fn parse_edges(s: &str) -> Option<Vec<(usize, usize)>> {
+    if s == "-" {
+        return Some(vec![]);
+    }
+    s.split(',')
+        .map(|e| {
+            let (a, b) = e.split_once(':')?;
+            Some((a.parse().ok()?, b.parse().ok()?))
+        })
+        .collect()
+}
+
+fn parse_args(n: &str, edges: &str, cards: &str) -> Option<Args> {
+    let n: usize = n.parse().ok()?;
+    let edges = parse_edges(edges)?;
+    let cards = parse_u64s(cards)?;
+    if n > 64 || cards.len() != n || edges.iter().any(|&(f, t)| f >= n || t >= n) {
+        return None;
+    }
+    Some(Args { n, edges, cards })
+}
+
+fn edges_arg(es: &[(usize, usize)]) -> String {
+    if es.is_empty() { "-".into() } else { es.iter().map(|(f, t)| format!("{}:{}", f, t)).collect::<Vec<_>>().join(",") }
+}
+
+// ------------------------------------------------------------------ plans
+
+fn scan(i: usize) -> LogicalOperator {
+    LogicalOperator::NodeScan(NodeScanOp { variable: format!("r{}", i), label: Some(format!("R{}", i)), input: None })
+}
+
+fn side(i: usize, k: usize, by_var: bool) -> LogicalExpression {
+    if by_var { LogicalExpression::Variable(format!("r{}", i)) } else { LogicalExpression::Property { variable: format!("r{}", i), property: format!("c{}", k) } }
+}
+
+fn estimator(cards: &[u64]) -> CardinalityEstimator {
+    let mut e = CardinalityEstimator::new();
+    for (i, c) in cards.iter().enumerate() {
+        e.add_table_stats(&format!("R{}", i), TableStats::new(*c));
+    }
+    e
+}
+
+/// ((r0 ⋈ r1) ⋈ r2) …: condition k = (f, t) sits at the join that adds relation max(f, t, 1)
+fn left_deep(a: &Args, by_var: bool) -> LogicalOperator {
+    let mut op = scan(0);
+    for lvl in 1..a.n {
+        let conditions: Vec<JoinCondition> = a
+            .edges
+            .iter()
+            .enumerate()
+            .filter(|(_, (f, t))| (*f).max(*t).max(1) == lvl)
+            .map(|(k, (f, t))| JoinCondition { left: side(*f, k, by_var), right: side(*t, k, by_var) })
+            .collect();
+        let join_type = if conditions.is_empty() { JoinType::Cross } else { JoinType::Inner };
+        op = LogicalOperator::Join(JoinOp { left: Box::new(op), right: Box::new(scan(lvl)), join_type, conditions });
+    }
+    op
+}
+
+fn rel_of(v: &str) -> String {
+    v.strip_prefix('r').unwrap_or("?").to_string()
+}
+
+fn ser_side(e: &LogicalExpression) -> (String, String) {
+    match e {
+        LogicalExpression::Property { variable, property } => (rel_of(variable), property.strip_prefix('c').unwrap_or("?").to_string()),
+        LogicalExpression::Variable(v) => (rel_of(v), "v".into()),
+        _ => ("?".into(), "?".into()),
+    }
+}
+
+fn ser_tree(op: &LogicalOperator) -> String {
+    match op {
+        LogicalOperator::NodeScan(s) => rel_of(&s.variable),
+        LogicalOperator::Join(j) => {
+            let cs: Vec<String> = j
+                .conditions
+                .iter()
+                .map(|c| {
+                    let ((l, k), (r, k2)) = (ser_side(&c.left), ser_side(&c.right));
+                    format!("{}:{}>{}", if k == k2 { k } else { "?".into() }, l, r)
+                })
+                .collect();
+            format!("( {} {} {} )", ser_tree(&j.left), ser_tree(&j.right), if cs.is_empty() { "-".into() } else { cs.join(",") })
+        }
+        LogicalOperator::Return(r) => ser_tree(&r.input),
+        _ => "?".into(),
+    }
+}
+
+// ------------------------------------------------------------------ an independent validity verdict
+
+#[derive(Default)]
+struct Verdict {
+    leaves: Vec<usize>,
+    seen: Vec<usize>,
+    uncovered: Vec<usize>,
+    flipped: Vec<usize>,
+    bad: bool,
+}
+
+fn walk(op: &LogicalOperator, v: &mut Verdict) -> Vec<usize> {
+    match op {
+        LogicalOperator::NodeScan(s) => match rel_of(&s.variable).parse::<usize>() {
+            Ok(i) => {
+                v.leaves.push(i);
+                vec![i]
+            }
+            Err(_) => {
+                v.bad = true;
+                vec![]
+            }
+        },
+        LogicalOperator::Join(j) => {
+            let l = walk(&j.left, v);
+            let r = walk(&j.right, v);
+            for c in &j.conditions {
+                let ((lv, k), (rv, _)) = (ser_side(&c.left), ser_side(&c.right));
+                let (Ok(lv), Ok(rv), Ok(k)) = (lv.parse::<usize>(), rv.parse::<usize>(), k.parse::<usize>()) else {
+                    v.bad = true;
+                    continue;
+                };
+                v.seen.push(k);
+                if l.contains(&lv) && r.contains(&rv) {
+                } else if l.contains(&rv) && r.contains(&lv) {
+                    v.flipped.push(k);
+                } else {
+                    v.uncovered.push(k);
+                }
+            }
+            let mut all = l;
+            all.extend(r);
+            all
+        }
+        _ => {
+            v.bad = true;
+            vec![]
+        }
+    }
+}
+
+fn verdict(a: &Args, op: &LogicalOperator) -> String {
+    let mut v = Verdict::default();
+    walk(op, &mut v);
+    let mut out: Vec<String> = vec![];
+    if v.bad {
+        out.push("shape".into());
+    }
+    let mut ls = v.leaves.clone();
+    ls.sort();
+    if ls != (0..a.n).collect::<Vec<_>>() {
+        out.push("leaves".into());
+    }
+    let missing: Vec<usize> = (0..a.edges.len()).filter(|k| !v.seen.contains(k)).collect();
+    let dup: Vec<usize> = (0..a.edges.len()).filter(|k| v.seen.iter().filter(|x| *x == k).count() > 1).collect();
+    for (name, xs) in [("missing", &missing), ("dup", &dup), ("uncovered", &v.uncovered), ("flipped", &v.flipped)] {
+        if !xs.is_empty() {
+            let mut s = (*xs).clone();
+            s.sort();
+            out.push(format!("{}:{}", name, join(&s)));
+        }
+    }
+    if out.is_empty() { "ok".into() } else { out.join("+") }
+}
+
+// ------------------------------------------------------------------ the real calls
+
+fn dpccp(a: &Args) -> Option<LogicalOperator> {
+    let mut b = JoinGraphBuilder::new();
+    for i in 0..a.n {
+        b.add_relation(&format!("r{}", i), scan(i));
+    }
+    for (k, (f, t)) in a.edges.iter().enumerate() {
+        b.add_join_condition(&format!("r{}", f), &format!("r{}", t), side(*f, k, false), side(*t, k, false));
+    }
+    let graph = b.build();
+    let cm = CostModel::new();
+    let ce = estimator(&a.cards);
+    let mut dp = DPccp::new(&graph, &cm, &ce);
+    dp.optimize().map(|p| p.operator)
+}
+
+fn optimizer(a: &Args, reorder: bool) -> Optimizer {
+    Optimizer::new().with_cardinality_estimator(estimator(&a.cards)).with_filter_pushdown(false).with_join_reorder(reorder).with_projection_pushdown(false)
+}
+
+fn parse_members(s: &str, n: usize) -> Option<Vec<Vec<u64>>> {
+    let ms: Option<Vec<Vec<u64>>> = s.split(',').map(|m| if m == "-" { Some(vec![]) } else { m.split('.').map(|x| x.parse().ok()).collect() }).collect();
+    let ms = ms?;
+    if ms.len() != n || ms.iter().flatten().any(|&j| j > 63) {
+        return None;
+    }
+    Some(ms)
+}
+
+fn execute(a: &Args, members: &[Vec<u64>], reorder: bool) -> Result<Vec<String>, String> {
+    let store = Arc::new(grafeo_core::graph::lpg::LpgStore::new());
+    let m = members.iter().flatten().max().map_or(0, |x| x + 1);
+    for j in 0..m {
+        let labels: Vec<String> = (0..a.n).filter(|&i| members[i].contains(&j)).map(|i| format!("R{}", i)).collect();
+        let refs: Vec<&str> = labels.iter().map(|s| s.as_str()).collect();
+        let id = store.create_node(&refs);
+        assert_eq!(id.as_u64(), j);
+    }
+    let items = (0..a.n).map(|i| ReturnItem { expression: LogicalExpression::Variable(format!("r{}", i)), alias: None }).collect();
+    let root = LogicalOperator::Return(ReturnOp { items, distinct: false, input: Box::new(left_deep(a, true)) });
+    let plan = optimizer(a, reorder).optimize(LogicalPlan::new(root)).map_err(|_| "error:optimize".to_string())?;
+    let txm = Arc::new(TransactionManager::new());
+    let epoch = txm.current_epoch();
+    let planner = Planner::with_context(Arc::clone(&store), txm, None, epoch).with_factorized_execution(false);
+    let mut phys = planner.plan(&plan).map_err(|_| "error:plan".to_string())?;
+    let executor = Executor::with_columns(phys.columns.clone());
+    let r = executor.execute(phys.operator.as_mut()).map_err(|_| "error:execute".to_string())?;
+    let mut rs: Vec<String> = r.rows.iter().map(|row| row.iter().map(crate::vals::tok).collect::<Vec<_>>().join("|")).collect();
+    rs.sort();
+    Ok(rs)
+}
+
+pub fn run(toks: &[&str]) -> String {
+    let a: Vec<String> = toks.iter().map(|s| s.to_string()).collect();
+    guarded(move || {
+        let t: Vec<&str> = a.iter().map(|s| s.as_str()).collect();
+        match t.as_slice() {
+            ["order", n, e, c] => match parse_args(n, e, c) {
+                Some(a) => dpccp(&a).map_or("none".into(), |op| ser_tree(&op)),
+                None => "bad-op".into(),
+            },
+            ["valid", n, e, c] => match parse_args(n, e, c) {
+                Some(a) => dpccp(&a).map_or("kept".into(), |op| verdict(&a, &op)),
+                None => "bad-op".into(),
+            },
+            ["check", n, e, c, rest @ ..] => match parse_args(n, e, c) {
+                Some(a) => {
+                    let now = dpccp(&a);
+                    let s = now.as_ref().map_or("none".into(), ser_tree);
+                    if s != rest.join(" ") {
+                        format!("changed:{}", s)
+                    } else {
+                        now.map_or("kept".into(), |op| verdict(&a, &op))
+                    }
+                }
+                None => "bad-op".into(),
+            },
+            ["opt", n, e, c] => match parse_args(n, e, c) {
+                Some(a) if a.n >= 1 => match optimizer(&a, true).optimize(LogicalPlan::new(left_deep(&a, false))) {
+                    Ok(p) => ser_tree(&p.root),
+                    Err(_) => "error:optimize".into(),
+                },
+                _ => "bad-op".into(),
+            },
+            ["rows", n, e, c, m] => match parse_args(n, e, c) {
+                Some(a) if a.n >= 1 && a.n <= 6 => {
+                    let Some(ms) = parse_members(m, a.n) else { return "bad-op".into() };
+                    match (execute(&a, &ms, false), execute(&a, &ms, true)) {
+                        (Ok(x), Ok(y)) => format!("{}/{}/{}", x.len(), y.len(), if x == y { "eq" } else { "ne" }),
+                        (Err(e), _) | (_, Err(e)) => e,
+                    }
+                }
+                _ => "bad-op".into(),
+            },
+            _ => "bad-op".into(),
+        }
+    })
+}
+
+// ------------------------------------------------------------------ generate
+
+/// a random join graph: `shape` 0 chain, 1 star, 2 random tree, 3 tree + one more edge, 4 two components,
+/// 5 dense (any pairs, parallel edges), then optional self-edge / reversed endpoints
+fn gen_edges(r: &mut Rng, n: usize, shape: u64, tame: bool) -> Vec<(usize, usize)> {
+    let mut es: Vec<(usize, usize)> = vec![];
+    if n < 2 {
+        if !tame && n == 1 && r.chance(1, 3) {
+            es.push((0, 0));
+        }
+        return es;
+    }
+    match shape {
+        0 => (1..n).for_each(|i| es.push((i - 1, i))),
+        1 => {
+            let hub = r.below(n as u64) as usize;
+            (0..n).filter(|&i| i != hub).for_each(|i| es.push((hub, i)));
+        }
+        2 | 3 => {
+            (1..n).for_each(|i| es.push((r.below(i as u64) as usize, i)));
+            if shape == 3 {
+                let f = r.below(n as u64) as usize;
+                let t = (f + 1 + r.below(n as u64 - 1) as usize) % n;
+                es.push((f, t));
+            }
+        }
+        4 => {
+            let cut = 1 + r.below(n as u64 - 1) as usize;
+            (1..n).filter(|&i| i != cut).for_each(|i| es.push((if i < cut { r.below(i as u64) as usize } else { cut + r.below((i - cut) as u64) as usize }, i)));
+        }
+        _ => {
+            let m = r.below(2 * n as u64 + 1);
+            for _ in 0..m {
+                let f = r.below(n as u64) as usize;
+                let t = r.below(n as u64) as usize;
+                if f != t || !tame {
+                    es.push((f, t));
+                }
+            }
+        }
+    }
+    // orientation of every condition: either endpoint may be the left expression
+    for e in es.iter_mut() {
+        if r.chance(1, 2) {
+            *e = (e.1, e.0);
+        }
+    }
+    // order of the conditions
+    for i in (1..es.len()).rev() {
+        let j = r.below(i as u64 + 1) as usize;
+        es.swap(i, j);
+    }
+    if !tame && r.chance(1, 8) {
+        let k = r.below(n as u64) as usize;
+        let at = r.below(es.len() as u64 + 1) as usize;
+        es.insert(at, (k, k));
+    }
+    es
+}
+
+/// distinct cardinalities ≥ 50: no estimate is clamped on a graph with at most |S| conditions inside
+/// any relation set S, and no two candidate trees tie except mirror images
+fn tame_cards(r: &mut Rng, n: usize) -> Vec<u64> {
+    let mut cs: Vec<u64> = vec![];
+    while cs.len() < n {
+        let c = match r.below(3) {
+            0 => r.range(50, 99),
+            1 => r.range(100, 2000),
+            _ => r.range(2001, 90000),
+        };
+        if !cs.contains(&c) {
+            cs.push(c);
+        }
+    }
+    cs
+}
+
+fn wild_cards(r: &mut Rng, n: usize) -> Vec<u64> {
+    let base = *r.pick(&[0u64, 1, 7, 1000, 1 << 40]);
+    (0..n)
+        .map(|_| match r.below(5) {
+            0 => base,
+            1 => r.below(3),
+            2 => r.range(1, 100),
+            3 => r.range(1, 1_000_000),
+            _ => 1000,
+        })
+        .collect()
+}
+
+pub fn generate(seed: u64, cases: usize, out: &mut Vec<String>) {
+    let mut r = Rng::new(seed ^ 0x6a6f_6f72);
+    let stats_on = std::env::var("VH_STATS").is_ok();
+    let mut dist: std::collections::BTreeMap<String, usize> = Default::default();
+    // boundary lines
+    for l in [
+        "jo order 0 - -",
+        "jo order 1 - 5",
+        "jo order 2 - 5,6",
+        "jo order 2 0:1 50,60",
+        "jo order 2 1:0 50,60",
+        "jo order 3 0:1,1:2 100,1000,10000",
+        "jo order 3 0:1,0:1,1:2 70,800,9000",
+        "jo valid 2 0:1 50,60",
+        "jo valid 2 1:0 50,60",
+        "jo valid 3 0:1,1:2,0:0 100,1000,10000",
+        "jo opt 1 - 9",
+        "jo opt 2 0:1 50,60",
+        "jo opt 3 0:1,1:2 100,1000,10000",
+        "jo opt 3 0:1 100,1000,10000",
+        "jo rows 2 0:1 50,60 0.1.2,1.2.3",
+        "jo rows 2 1:0 50,60 0.1.2,1.2.3",
+        "jo order 17 - 1,1,1,1,1,1,1,1,1,1,1,1,1,1,1,1,1",
+    ] {
+        out.push(l.to_string());
+    }
+    for c in 0..cases {
+        out.push(format!("# case {} seed {}", c, seed));
+        // (1) tame statistics: the model's exact cost arithmetic decides like the f64 one
+        for _ in 0..3 {
+            let n = match r.below(10) {
+                0 => 1,
+                1 | 2 => 2,
+                3 | 4 | 5 => 3,
+                6 | 7 => 4,
+                8 => 5,
+                _ => 6,
+            };
+            let shape = r.below(5);
+            let es = gen_edges(&mut r, n, shape, true);
+            let cs = tame_cards(&mut r, n);
+            *dist.entry(format!("tame n={} shape={}", n, shape)).or_default() += 1;
+            let args = format!("{} {} {}", n, edges_arg(&es), join(&cs));
+            out.push(format!("jo order {}", args));
+            out.push(format!("jo valid {}", args));
+            out.push(format!("jo opt {}", args));
+            if n <= 4 {
+                let m = 2 + r.below(4);
+                let members: Vec<String> = (0..n)
+                    .map(|_| {
+                        let ids: Vec<String> = (0..m).filter(|_| r.chance(2, 3)).map(|j| j.to_string()).collect();
+                        if ids.is_empty() { "-".into() } else { ids.join(".") }
+                    })
+                    .collect();
+                out.push(format!("jo rows {} {}", args, members.join(",")));
+            }
+        }
+        // (2) any statistics, any shape (self-conditions, parallel conditions, more than 16 relations):
+        // the tree the real search returns is validated
+        for _ in 0..3 {
+            let n = match r.below(12) {
+                0 => 0,
+                1 => 1,
+                2 | 3 | 4 => 2 + r.below(3) as usize,
+                5 | 6 | 7 => 5 + r.below(3) as usize,
+                8 => 8 + r.below(3) as usize,
+                9 => 11 + r.below(2) as usize,
+                10 => 16,
+                _ => 17 + r.below(4) as usize,
+            };
+            // the search visits 2^|S| splits for every connected S: stars and bushy trees of 16 take seconds
+            let shape = if n >= 13 { 0 } else if n >= 11 { r.below(3) } else { r.below(6) };
+            let es = gen_edges(&mut r, n, shape, false);
+            let cs = wild_cards(&mut r, n);
+            let a = Args { n, edges: es.clone(), cards: cs.clone() };
+            let tree = dpccp(&a).as_ref().map_or("none".into(), ser_tree);
+            *dist.entry(format!("wild n={} shape={} {}", n, shape, if tree == "none" { "none" } else { "tree" })).or_default() += 1;
+            out.push(format!("jo check {} {} {} {}", n, edges_arg(&es), list_arg(&cs), tree));
+        }
+    }
+    if stats_on {
+        for (k, v) in dist {
+            eprintln!("jo {:40} {}", k, v);
+        }
+    }
 }
